@@ -68,6 +68,8 @@ def client_kwargs(p, auth, der, variant=0):
     ctx = make_context(p["ctx"], p["backend"], auth)
     if ctx is not None:
         kw["ssl_context"] = ctx
+        if p["route"].startswith("tunnel_https"):
+            kw["ca_certs"] = auth.capath      # the proxy leg builds its own context and needs the CA too
     elif variant % 2 == 0 or p["backend"] == "pyopenssl":
         # (PyOpenSSLContext.load_verify_locations cannot take ca_cert_data alone: it fails closed with
         # SSLError "unable to load trusted certificates" before anything is sent -- outside C07)
@@ -101,7 +103,7 @@ def exc_chain(e):
     out, seen = [], set()
     while e is not None and id(e) not in seen and len(out) < 8:
         seen.add(id(e))
-        out.append(type(e).__name__)
+        out.append(type(e).__module__ + "." + type(e).__qualname__)
         nxt = getattr(e, "reason", None)
         if not isinstance(nxt, BaseException):
             nxt = e.__cause__ or (e.args[0] if e.args and isinstance(e.args[0], BaseException) else None) or e.__context__
